@@ -1,24 +1,51 @@
+import os
 from spec import *
 from _contracts import *
 
 L = "lib/melvm/src/lib.rs"
 O = "lib/melvm/src/opcode.rs"
+K = "lib/melvm/src/consts.rs"
+import re as _re
+OPCONSTS = [n for n in _re.findall(r"const (OPCODE_[A-Z0-9_]+): u8", open(os.path.join(REPO, K)).read()) if n != "OPCODE_PRINT"]
 UNIT = Unit(
-    name="codec", lemma_obs=['lemma_roundtrip', 'lemma_dec_then_enc'], uses=None,
-    prelude=["core.rs", "raw.rs", "melvm_types.rs"],
-    lemmas=["sums.rs", "weight.rs", "codec.rs"],
+    name="codec", lemma_obs=['lemma_roundtrip', 'lemma_dec_then_enc', 'lemma_k1', 'lemma_k2'], uses=None,
+    prelude=["core.rs", "raw.rs", "melvm_types.rs", "melvm_exec.rs", "codec_io.rs"],
+    lemmas=["sums.rs", "weight.rs", "codec_def.rs", "codec.rs"],
     items=[
         TypeItem(O, "enum", "OpCode", derive="#[derive(Clone)]"),
-        Raw("""#[verifier::external_body] pub struct DecodeError { _p: u8 }
-#[verifier::external_body] pub struct EncodeError { _p: u8 }
-impl core::fmt::Debug for EncodeError { #[verifier::external_body] fn fmt(&self, f: &mut core::fmt::Formatter<'_>) -> core::fmt::Result { unimplemented!() } }
-use std::sync::Arc;"""),
+        Raw("use std::sync::Arc; use std::io::Read; use std::io::Write;"),
+        *[TypeItem(K, "const", n) for n in OPCONSTS],
+        TypeItem(O, "enum", "DecodeError", subst=[("#[from] ", "")]),
+        TypeItem(O, "enum", "EncodeError"),
+        Raw("""impl core::fmt::Debug for EncodeError { #[verifier::external_body] fn fmt(&self, f: &mut core::fmt::Formatter<'_>) -> core::fmt::Result { unimplemented!() } }
+// thiserror's `#[from]` on DecodeError::IoError: the generated conversion wraps the error
+impl vstd::std_specs::convert::FromSpecImpl<std::io::Error> for DecodeError { open spec fn obeys_from_spec() -> bool { false } uninterp spec fn from_spec(v: std::io::Error) -> DecodeError; }
+impl From<std::io::Error> for DecodeError { #[verifier::external_body] fn from(e: std::io::Error) -> (r: DecodeError) ensures r is IoError { DecodeError::IoError(e) } }"""),
         TypeItem(L, "struct", "Covenant", subst=[("(Arc<Vec<OpCode>>)", "(pub Arc<Vec<OpCode>>)")]),
         Raw("impl View for Covenant { type V = Seq<OpCode>; open spec fn view(&self) -> Seq<OpCode> { (*self.0)@ } }"),
-        Fn(O, "decode", impl="OpCode", mode="assume", sig_subst=[("decode<T: std::io::Read>(input: &mut T)", "decode(input: &mut &[u8])")],
-           ensures=[C("k", "match spec_decode1(old(input)@) { Some((op, n)) => res == Ok::<OpCode, DecodeError>(op) && n <= old(input)@.len() && final(input)@ == old(input)@.skip(n as int), None => res is Err }", "C12")]),
-        Fn(O, "encode", impl="OpCode", mode="assume",
-           ensures=[C("k", "match spec_encode1(*self) { Some(e) => res is Ok && final(output)@ == old(output)@ + e, None => res is Err && final(output)@ == old(output)@ }", "C12")]),
+        Fn(O, "read_byte", home="C12", implicit_props=("C09", "C12"), sig_subst=[("read_byte<T: std::io::Read>(input: &mut T)", "read_byte(input: &mut &[u8])")],
+           ensures=[C("byte", "old(input)@.len() >= 1 ==> res is Ok && res->Ok_0 == old(input)@[0] && final(input)@ == old(input)@.skip(1)", "C12"),
+                    C("short", "old(input)@.len() == 0 ==> res is Err", "C12")]),
+        Fn(O, "decode", impl="OpCode", home="C12", implicit_props=("C09", "C12"), sig_subst=[("decode<T: std::io::Read>(input: &mut T)", "decode(input: &mut &[u8])")],
+           rewrites=[("SUBALL", r"\|input: &mut T\|", "|input: &mut &[u8]|"), ("SUBALL", r"\bu16::from_be_bytes\(", "u16_from_be_bytes("), ("SUBALL", r"\bu8::from_be_bytes\(", "u8_from_be_bytes(")],
+           closures=[Closure(0, "input: &mut &[u8]", "(r: Result<u16, DecodeError>)", ensures=[
+                         C("u16arg", "old(input)@.len() >= 2 ==> r is Ok && r->Ok_0 == u16of(old(input)@[0], old(input)@[1]) && final(input)@ == old(input)@.skip(2)", "C12"),
+                         C("u16short", "old(input)@.len() < 2 ==> r is Err", "C12")]),
+                     Closure(1, "input: &mut &[u8]", "(r: Result<u8, DecodeError>)", ensures=[
+                         C("u8arg", "old(input)@.len() >= 1 ==> r is Ok && r->Ok_0 == old(input)@[0] && final(input)@ == old(input)@.skip(1)", "C12"),
+                         C("u8short", "old(input)@.len() < 1 ==> r is Err", "C12")])],
+           injects=[Inject("entry", "proof { broadcast use axiom_vec_u8_ext, axiom_vec_of, axiom_u256_ext, axiom_u256_of, axiom_be_inv, axiom_be, lemma_skip_skip, lemma_skip_take, lemma_skip_index; }"),
+                    Inject(("after_let", "integ"), """proof { let b0 = old(input)@; let n = nonzero_len as nat; let p = b0.subrange(2, (2 + n) as int); let s = zeros((32 - n) as nat) + p;
+                        assert(b0.skip(1).skip(1) =~= b0.skip(2)); assert(b0.skip(2).take(n as int) =~= p); assert(b0.skip(2).skip(n as int) =~= b0.skip((2 + n) as int));
+                        assert(buf@.reverse() =~= s); assert(s.len() == 32); lemma_lead0_zeros((32 - n) as nat, p);
+                        assert(be_bytes(integ@) == s); assert(lead0(p) == 0 <==> (n == 0 || p[0] != 0)); assert(n > 0 ==> p[0] == b0[2]); }""")],
+           ensures=[C("k", "match spec_decode1(old(input)@) { Some((op, n)) => res == Ok::<OpCode, DecodeError>(op) && n <= old(input)@.len() && final(input)@ == old(input)@.skip(n as int), None => res is Err }", "C12",
+                      note="the decoder computes the defined wire format: Ok exactly on the strings that start with one well-formed instruction (canonical PushIC only), consuming exactly that instruction")]),
+        Fn(O, "encode", impl="OpCode", home="C12", implicit_props=("C09", "C12"),
+           rewrites=[("SUBALL", r"\.to_be_bytes\(\)", ".to_be_bytes_v()"), ("SUBALL", r"bytes_repr\.iter\(\)\.take_while\(\|i\| \*\*i == 0\)\.count\(\)", "count_leading_zero_bytes(&bytes_repr)")],
+           injects=[Inject(("after_let", "leading_zeros"), "proof { broadcast use axiom_u256_range, axiom_be; assert(bytes_repr@.len() == 32); lemma_lead0_bound(bytes_repr@); }")],
+           ensures=[C("k", "match spec_encode1(*self) { Some(e) => res is Ok && final(output)@ == old(output)@ + e, None => res is Err && final(output)@ == old(output)@ }", "C12",
+                      note="the encoder appends exactly the defined encoding; the only failure is a PushB literal longer than 255 bytes, which writes nothing")]),
         Fn(O, "opcodes_weight", mode="assume", ensures=[C("value", "res as int == spec_weight(opcodes@)", "C11")]),
         Fn(L, "from_bytes", impl="Covenant", home="C12", implicit_props=("C09", "C12"),
            ensures=[C("whole", "match dec_all(b@) { Some(ops) => res is Ok && res->Ok_0@ == ops, None => res is Err }", "C12"),
@@ -26,8 +53,8 @@ use std::sync::Arc;"""),
            rewrites=[("MUTPARAM", "b", "cur"), ("SUB", "Ok(Self(opcodes.into()))", "Ok(Self(Arc::new(opcodes)))")],
            injects=[Inject("before_tail", "proof { if dec_all(b@) is Some { lemma_dec_then_enc(b@); } }")],
            loops=[Loop(0, decreases="cur@.len()",
-               body_entry="let ghost bb = cur@; let ghost ops0 = opcodes@; proof { broadcast use axiom_k1; assert(bb.len() > 0); if spec_decode1(bb) is None { assert(dec_all(bb) is None); } }",
-               body_exit="""proof { broadcast use axiom_k1; let op = spec_decode1(bb)->Some_0.0; let n = spec_decode1(bb)->Some_0.1;
+               body_entry="let ghost bb = cur@; let ghost ops0 = opcodes@; proof { broadcast use lemma_k1; assert(bb.len() > 0); if spec_decode1(bb) is None { assert(dec_all(bb) is None); } }",
+               body_exit="""proof { broadcast use lemma_k1; let op = spec_decode1(bb)->Some_0.0; let n = spec_decode1(bb)->Some_0.1;
                    assert(1 <= n <= bb.len()); assert(cur@ == bb.skip(n as int)); assert(opcodes@ == ops0.push(op));
                    if dec_all(cur@) is Some { let r = dec_all(cur@)->Some_0; assert(dec_all(bb) == Some(seq![op] + r)); assert(ops0 + (seq![op] + r) =~= ops0.push(op) + r); }
                    else { assert(dec_all(bb) is None); } }""",
